@@ -273,7 +273,7 @@ func init() {
 			}
 			maxLen := 4
 			if rc.Tier == "thorough" {
-				maxLen = 6
+				maxLen = 5 // 6 is 1.5M records: the judge then needs more than 30 minutes (measured)
 			}
 			for _, data := range hostileInputs(maxLen) {
 				for _, ty := range []string{"date", "time", "timetz", "ts", "tstz"} {
@@ -287,7 +287,7 @@ func init() {
 		recs := build()
 		rc.addInt("evaluations", len(recs))
 		rc.cov("exhaustive", true)
-		rc.cov("rule", "value grid: 9 dates (years 1, 999, 1970, 2015, 2016 leap day, 9999; US transition days) x 5 clock times x 7 nanosecond values (0..9 significant digits) x 6 whole-minute offsets (-12 .. +14 incl. half hours) for each of the five types, built with the New* constructors; zone round trips date / timestamp -> timestamptz -> back in {UTC, +05:30, -04:00, America/New_York}; hostile UnmarshalJSON input for each type: every JSON token kind, every string of length 0..4 (thorough 6) over {0 1 : - + T Z .} quoted and short ones bare, every prefix and suffix of valid texts")
+		rc.cov("rule", "value grid exported by MC_C18 (dates: years 1, 999, 1970, 2015, 2016 leap day, 9999, US transition days; boundary clock times; nanoseconds with 0..9 significant digits; whole-minute offsets -12:00 .. +14:00 incl. half hours, -00:30, +00:45; thorough: more of each) for each of the five types, built with the New* constructors; timestamptz values also handed over in UTC and built under another context zone; zone round trips date / timestamp -> timestamptz -> back in {UTC, +05:30, -04:00, America/New_York}; .string() without and with WithTZ in another zone; hostile UnmarshalJSON input for each type: every JSON token kind, every string of length 0..4 (thorough 5) over {0 1 : - + T Z .} quoted and short ones bare, every prefix and suffix of valid texts")
 		v1 := rc.judgeDT(recs)
 		fmt.Printf("  %d datetime records judged, %d with remarks\n", len(recs), len(v1))
 		if len(v1) == 0 {
